@@ -26,6 +26,7 @@ pub struct GenCfg {
     pub allow_custom_template: bool,
     pub allow_double_underscore: bool,
     pub value_hints: bool,
+    pub allow_flag_subs: bool,
     pub text: TextKind,
 }
 
@@ -56,6 +57,7 @@ impl GenCfg {
             allow_custom_template: false,
             allow_double_underscore: false,
             value_hints: false,
+            allow_flag_subs: true,
             text: TextKind::Plain,
         }
     }
@@ -76,6 +78,7 @@ impl GenCfg {
             allow_custom_template: true,
             allow_double_underscore: false,
             value_hints: false,
+            allow_flag_subs: true,
             text: TextKind::Layout,
         }
     }
@@ -96,6 +99,7 @@ impl GenCfg {
             allow_custom_template: false,
             allow_double_underscore: false,
             value_hints: true,
+            allow_flag_subs: false,
             text: TextKind::Adversarial,
         }
     }
@@ -416,7 +420,7 @@ fn gen_level(rng: &mut Rng, cfg: &GenCfg, sw: &Swarm, names: &mut Names, level: 
                 c.visible_aliases.push(names.sub(rng, k, false));
             }
         }
-        if sw.flag_subs && !(multicall_root && level == 1) {
+        if sw.flag_subs && cfg.allow_flag_subs && !(multicall_root && level == 1) {
             if rng.chance(1, 2) {
                 c.short_flag = names.short();
                 if rng.chance(1, 4) {
